@@ -379,13 +379,17 @@ func (g *gen) callText(f *fn, callee string) (string, bool) {
 		g.fc.panics = true
 	}
 	var args []string
+	argPos := posArg
+	if f.recv != nil {
+		argPos = posMethodArg
+	}
 	for i, p := range f.params {
 		switch {
 		case f.recursive && i == 0:
 			args = append(args, itoa(g.pick(6)))
 		case f.variadic && i == len(f.params)-1:
 			if g.chance(30) {
-				vs := g.visible(func(v *vr) bool { return sameType(v.t, p.t) })
+				vs := g.visible(func(v *vr) bool { return sameType(v.t, p.t) && !v.noArg })
 				if len(vs) > 0 {
 					vs[0].used = true
 					args = append(args, vs[0].name+"...")
@@ -395,10 +399,10 @@ func (g *gen) callText(f *fn, callee string) (string, bool) {
 			}
 			n := g.pick(4)
 			for j := 0; j < n; j++ {
-				args = append(args, g.exprPos(p.t.elem, 1, posArg))
+				args = append(args, g.exprPos(p.t.elem, 1, argPos))
 			}
 		default:
-			args = append(args, g.exprPos(p.t, 1, posArg))
+			args = append(args, g.exprPos(p.t, 1, argPos))
 		}
 	}
 	return callee + "(" + strings.Join(args, ", ") + ")", true
@@ -579,7 +583,7 @@ func (g *gen) sliceLit(t *typ, n int) string {
 
 func (g *gen) sliceExpr(t *typ, d int) string {
 	if g.chance(70) {
-		vs := g.visible(func(v *vr) bool { return sameType(v.t, t) })
+		vs := g.visible(func(v *vr) bool { return sameType(v.t, t) && !v.noArg })
 		if len(vs) > 0 {
 			v := vs[g.pick(len(vs))]
 			v.used = true
